@@ -197,6 +197,18 @@ func c09Verdict(m c09Model, kind string, path []string, t *harness.Trace) (fp, w
 			continue
 		}
 		if p.Local == "isearch" && o.Local == "" && o.Kind == "main" && o.Line != m.W && inH(o.Line) && p.Line != "" {
+			// leaving the search without a match restores the buffer the search started from, which
+			// may itself be an entry reached by walking
+			before := ""
+			for j := i - 1; j >= 0; j-- {
+				if obs[j] != nil && obs[j].Local == "" && obs[j].Kind == "main" {
+					before = obs[j].Line
+					break
+				}
+			}
+			if o.Line == before {
+				continue
+			}
 			if !containsFold(o.Line, p.Line) && path[i-1] != "key:abort" {
 				return "isearch-accepts-non-matching-entry", fmt.Sprintf("after %v: incremental search for %q left %q in the buffer", path[:i], p.Line, o.Line)
 			}
